@@ -31,6 +31,7 @@ ASSUMPTIONS = [
     "with a default that is not noreset takes its default, the coroutine returns to its first state, on_reset actions run, nothing else executes",
     "crash points are enumerated along SAMPLED runs (all clock positions of each recorded run); the run space itself is sampled",
     "reset changes never coincide with the active clock edge instant",
+    "targets are written as a whole and through slices / single bits (a noreset object stays noreset however it is written)",
 ]
 
 
